@@ -496,9 +496,15 @@ func (k Keeper) PayFromDelegation(ctx sdk.Context, delAddr sdk.AccAddress, payou
 			}
 			remaining = remaining.Sub(ubdAmount)
 		}
-		ubdShares, err := val.SharesFromTokens(ubdAmount)
-		if err != nil {
-			panic(err)
+		if val.GetTokens().IsZero() {
+			panic("validator has no tokens to pay from")
+		}
+		// Shares are rounded up: converting them back to tokens then yields exactly ubdAmount.
+		// SharesFromTokens truncates, and for a validator whose shares are worth less than one
+		// token each (after a slash) the payout then arrives one unit short per delegation.
+		ubdShares := val.GetDelegatorShares().MulInt(ubdAmount).QuoRoundUp(val.GetTokens().ToDec())
+		if ubdShares.GT(delegations[i].GetShares()) {
+			ubdShares = delegations[i].GetShares()
 		}
 
 		delAddr, err := sdk.AccAddressFromBech32(delegations[i].DelegatorAddress)
